@@ -2,7 +2,7 @@
 from pw_verif import ref
 from pw_verif.engine import PrepFailed
 from pw_verif.harness import Violation, case_hash
-from pw_verif.program import Inapplicable, Machine, Tagged, TooBig
+from pw_verif.program import Destroyed, Inapplicable, Machine, Tagged, TooBig
 from pw_verif.snap import Malformed
 
 
@@ -22,6 +22,26 @@ def run_program_case(case, prop: str, focus_kinds=None):
     for i, st in enumerate(case["steps"]):
         try:
             res = m.step(st)
+        except Destroyed as d:
+            if prop not in ("C05", "C17") or st["k"] not in ("op", "kraus", "measure", "povm"):
+                labels.append("skipped:" + str(d)[:30])
+                continue
+            # a request on a destroyed subsystem must fail and change nothing
+            mode = {"op": 0, "kraus": 1, "measure": 2, "povm": 3}[st["k"]]
+            entry = st.get("entry", "state")
+            if entry == "env" and d.name not in m.w.env_of:
+                entry = "state"
+            try:
+                m.do_invalid(dict(k="invalid", fault="use_destroyed", entry=entry, targets=[d.name], mode=mode, seed=i))
+                labels.append("use-of-destroyed-rejected:" + st["k"])
+            except Inapplicable:
+                labels.append("skipped:" + str(d)[:30])
+            except Tagged as t:
+                if prop in t.props:
+                    raise
+                labels.append("abandoned-after-foreign:" + "+".join(t.props))
+                break
+            continue
         except Inapplicable as e:
             labels.append("skipped:" + str(e)[:30])
             continue
